@@ -346,7 +346,7 @@ PROPS["C12"] = {
              "Distinct by hash(declaration, candidates)."),
     "assumptions": ["bounds are inclusive unless the exclusive flag is true; required means present (non-zero for fields without presence); pattern is an RE2 search"],
     "lanes": [
-        lane("TestRules", "rules", 600, 3000, shards=16, must_classes=["both-verdicts", "kind:integer:INT32", "kind:enum", "kind:array:string", "kind:map:string", "kind:map:key", "siblings:1", "siblings:2"]),
+        lane("TestRules", "rules", 600, 3000, shards=16, must_classes=["both-verdicts", "kind:integer:INT32", "kind:enum", "kind:array:string", "kind:map:string", "kind:map:key", "siblings:1", "siblings:2", "subject-in-oneof:required"]),
     ],
 }
 
@@ -407,7 +407,7 @@ PROPS["C17"] = {
              "casing: one entity per package, named from a pool of 16 casings or a random re-casing of a word; every case is non-trivial."),
     "assumptions": ["README entity section; the statement of C17"],
     "lanes": [
-        lane("TestEntity", "entity", 200, 1200, shards=16, must_classes=["shard-key", "foreign-key", "tenant-key", "events:0", "summaries:2", "summary-unnamed-after-named", "commands:2", "command-options", "entity-nested-schema", "enum-option-explicit-number"]),
+        lane("TestEntity", "entity", 200, 1200, shards=16, must_classes=["shard-key", "foreign-key", "tenant-key", "events:0", "summaries:2", "summary-unnamed-after-named", "commands:2", "command-options", "entity-nested-schema", "enum-option-explicit-number", "key:primary-false"]),
         lane("TestCasing", "casing", 120, 600, shards=4, must_classes=["casing:all-caps", "casing:all-lower", "casing:underscore", "casing:ends-in-capital", "casing:lower-camel"]),
     ],
 }
